@@ -111,6 +111,19 @@ def run_render_unit_axes(shard: Dict[str, Any], rep: Report) -> None:
                     rep.violation(name, cid, "render_raises", {"wrapper": W.__name__, "error": repr(e)[:300], "batch": b}, replay={"env": name, "cfg": cfg, "batch": b})
                     continue
                 got = untyped(seen[0]) if seen else None
+                if not typed and seen:
+                    # the same batch as a host-side state (jax.device_get / a restored checkpoint: NumPy leaves)
+                    seen_dev = list(seen)
+                    seen.clear()
+                    try:
+                        w.render(jax.tree_util.tree_map(lambda x: np.asarray(x), state))
+                        rep.count("render_host_side_states")
+                        if len(seen) != 1 or tree_diff(decode(seen[0]), decode(single), exact=True):
+                            rep.violation(name, cid, "render_first_element", {"wrapper": W.__name__, "calls": len(seen), "batch": b, "state": "NumPy leaves"},
+                                          replay={"env": name, "cfg": cfg, "batch": b, "numpy_leaves": True}, qualifier="numpy_leaves")
+                    except Exception as e:
+                        rep.violation(name, cid, "render_raises", {"wrapper": W.__name__, "error": repr(e)[:300], "batch": b, "state": "NumPy leaves"}, replay={"env": name, "cfg": cfg, "batch": b}, qualifier="numpy_leaves")
+                    seen[:] = seen_dev
                 if len(seen) != 1 or tree_diff(decode(got), decode(single), exact=True):
                     bad = tree_diff(decode(got), decode(single), exact=True) if seen else []
                     rep.violation(name, cid, "render_first_element", {"wrapper": W.__name__, "calls": len(seen), "fields": bad[:6], "batch": b, "typed_keys": typed},
